@@ -41,7 +41,7 @@ ASSUMPTIONS = [
 TECHNIQUE = "history monitor: recorded read/construct histories on shared arguments vs a pristine per-entry table; mutation audit; thread stress with yield injection (thorough)"
 DESIGN_REF = "DESIGN.md 4 C18; 2.4(d)(e)"
 REQUIRED_REACH = {
-    "quick": ["history_read", "reread", "construct_shared", "envelope_equivalence",
+    "quick": ["history_read", "reread", "construct_shared", "envelope_equivalence", "thread_read",
               "class:mutated_response", "class:set_and_single_cubes", "class:mode=cube",
               "class:mode=cubeset_tabbook", "class:mode=cubeset_ca0",
               "class:mode=cubeset_numsum", "class:mode=cubeset_filtercols", "class:3d",
@@ -63,8 +63,9 @@ def units(tier, seed):
     # W3: histories on the repository's fixture responses (every second one in the quick tier)
     cu = corpus.units(tier, seed, reps=1 if tier == "quick" else 6)
     out += [u for k, u in enumerate(cu) if tier != "quick" or k % 2 == seed % 2]
-    if tier == "thorough":
-        out += [{"i": i, "seed": seed, "threads": True} for i in range(400)]
+    # W5 thread stress: 84 histories in the quick tier, 840 in the thorough tier
+    out += [{"i": i, "seed": seed, "threads": True} for i in range(
+        84 if tier == "quick" else 840)]
     return out
 
 
@@ -144,10 +145,12 @@ def make_case(unit):
     i = unit["i"]
     g = gen.G("C18/%s/%s/%s" % (unit["seed"], i, unit["threads"]))
     mode = MODES[i % len(MODES)]
+    if unit["threads"]:
+        mode = "cube" if i % 4 else MODES[5 + (i // 4) % (len(MODES) - 5)]
     N = g.pick([8, 14, 24])
     w = g.weights(N, g.pick(["none", "frac"]))
     if mode == "cube":
-        template = TEMPLATES[(i // len(MODES)) % len(TEMPLATES)]
+        template = TEMPLATES[(i if unit["threads"] else i // len(MODES)) % len(TEMPLATES)]
         tpl = template.replace("mrd", "mr")
         facets = cases.random_facets(g, tpl, N, sizes=[g.r.randint(2, 4)] * len(
             tpl.split("|")), p_zero=0.1)
@@ -349,7 +352,10 @@ def check_case(case):
     def kind(e):
         return e[3] if len(e) == 4 else None
 
-    for e in set(chosen):
+    wanted = set(chosen)
+    if case.get("threads"):
+        wanted |= set(e for e in entries if kind(e) is None)  # the thread stress reads them all
+    for e in wanted:
         fresh = _build(case, copy.deepcopy(base_resp), copy.deepcopy(base_trs), which=kind(e))
         try:
             fparts = _partitions(case, fresh, kind(e)) if e[0] >= 0 else None
@@ -453,16 +459,19 @@ def _short(x):
 
 
 def _thread_stress(res, case, base_resp, base_trs, entries, pristine_known, r):
-    """8 threads read the same partitions; every value must equal the pristine one."""
+    """8 threads read the same partitions; every value must equal the pristine one.
+
+    Several rounds, each on a fresh shared object: in a round all threads wait at a barrier
+    and then read the *same few* properties (in their own order), so that first accesses -
+    where a lazily cached value is computed and stored - collide. The interpreter switches
+    threads every microsecond and a LINE monitor yields at random lines of the modules that
+    hold the caches and the measures."""
     import sys
     import time
 
-    shared = _build(case, copy.deepcopy(base_resp), copy.deepcopy(base_trs))
-    try:
-        parts = _partitions(case, shared)
-    except Exception:
+    todo = [e for e in pristine_known if e[0] >= 0]
+    if not todo:
         return
-    todo = [e for e in pristine_known if e[0] >= 0][:40]
     results = []
     lock = threading.Lock()
     old = sys.getswitchinterval()
@@ -477,7 +486,9 @@ def _thread_stress(res, case, base_resp, base_trs, entries, pristine_known, r):
                 rr = random.Random(str(case["hseed"]) + "/y")
                 import cr.cube.util as U
                 import cr.cube.dimension as D
-                files = {U.__file__, D.__file__}
+                import cr.cube.matrix.measure as MM
+                import cr.cube.stripe.measure as SM
+                files = {U.__file__, D.__file__, MM.__file__, SM.__file__}
 
                 def on_line(code, line):
                     if code.co_filename in files:
@@ -490,20 +501,40 @@ def _thread_stress(res, case, base_resp, base_trs, entries, pristine_known, r):
                 mon.set_events(tool, mon.events.LINE)
             except Exception:
                 tool = None
+        res.observations["thread-stress histories %s LINE yield injection" % (
+            "with" if tool is not None else "WITHOUT")] += 1
+        n_threads = 8
+        order = r.sample(todo, len(todo))
+        size = max(1, (len(order) + 4) // 5)
+        chunks = [order[k:k + size] for k in range(0, len(order), size)]  # every entry once
+        for rnd_no in range(len(chunks)):
+            shared = _build(case, copy.deepcopy(base_resp), copy.deepcopy(base_trs))
+            try:
+                parts = _partitions(case, shared)
+            except Exception:
+                return
+            few = chunks[rnd_no % len(chunks)]
+            barrier = threading.Barrier(n_threads)
 
-        def worker(seed):
-            rnd = random.Random(seed)
-            for e in rnd.sample(todo, len(todo)):
-                got = _outcome(_read_entry(case, shared, parts, e))
-                with lock:
-                    results.append((e, got))
+            def worker(seed, shared=shared, parts=parts, few=few, barrier=barrier):
+                # all threads take the entries in the same order and meet before each one:
+                # every property is first read by all of them at once
+                for e in few:
+                    try:
+                        barrier.wait(20)
+                    except threading.BrokenBarrierError:
+                        pass
+                    got = _outcome(_read_entry(case, shared, parts, e))
+                    with lock:
+                        results.append((e, got))
 
-        ths = [threading.Thread(target=worker, args=("%s/%d" % (case["hseed"], k),))
-               for k in range(8)]
-        for t in ths:
-            t.start()
-        for t in ths:
-            t.join(60)
+            ths = [threading.Thread(target=worker,
+                                    args=("%s/%d/%d" % (case["hseed"], rnd_no, k),))
+                   for k in range(n_threads)]
+            for t in ths:
+                t.start()
+            for t in ths:
+                t.join(60)
     finally:
         sys.setswitchinterval(old)
         if tool is not None:
